@@ -48,6 +48,30 @@ def run(tier, seed, replay=None):
     if verdict is None:
         ck.finish()
     solsuite.report(ck, runs, verdict, PROPS, "C05")
+    # nonlinear solvers: cp / cpl / gp on the function families
+    from harness import nlsuite
+    solv = [I for I in inst if I["kind"] == "solvable"]
+    ncases = nlsuite.make_cases(solv[:(150 if quick else 3000)], rnd, per_inst=1)
+    nruns, nverdict = nlsuite.run_cases(ck, [(c, [dict()], False) for c in ncases], "c05/traces_nl")
+    if nverdict is None:
+        ck.finish()
+    for i, r in enumerate(nruns):
+        v = nverdict[i]
+        ck.traces += 1
+        ck.evaluations += 1
+        last = r["trace"][-1]
+        outc = last["cls"] if last["ev"] == "Raise" else last["status"]
+        d = r.get("dims") or {}
+        cone = ("l" if d.get("l") else "") + ("q" if d.get("q") else "") + ("s" if d.get("s") else "")
+        ck.nontrivial(("nl", r["cfg"]["family"], cone, outc))
+        for p in v["violated"]:
+            if p in PROPS:
+                exc = (r.get("exc") or "").split("(")[0]
+                sig = "%s|%s|family=%s|outcome=%s%s" % (r["cfg"]["entry"], p, r["cfg"]["family"], outc,
+                                                        ("|" + (r.get("exc") or "")[:60]) if outc not in ("unknown", "optimal") else "")
+                ck.violation(sig, "%s on a well-posed %s instance (cone %s): %s violated, outcome %s %s" % (
+                    r["cfg"]["entry"], r["cfg"]["family"], cone or "none", p, outc, r.get("exc") or ""), r)
+    runs = runs + nruns
     # agreement of all paths on one instance (objective within tolerance)
     byinst = {}
     for r in runs:
